@@ -31,6 +31,7 @@ def lib_src(frag):
         'els': st.lists(gen.nonempty_lens(frag, 2), min_size=0, max_size=20),
         'end': st.sampled_from(['flag', 'sep']),
         'awaits': st.integers(0, 3),
+        'pace': st.sampled_from([0, 0, 0, 1, 7, 40]),
     })
 
 
